@@ -1,6 +1,6 @@
 (** C12 — proofs about the model in Script.v. *)
 From Coq Require Import List ZArith NArith Bool Lia.
-From LV Require Import Base.Sexp Base.Bytes Html.Script.
+From LV Require Import Base.Sexp Base.Bytes ServerFn.ErrorCodec ServerFn.Base64Proofs Html.Script.
 Import ListNotations.
 Open Scope N_scope.
 
@@ -372,7 +372,9 @@ Proof.
       try (apply Inv_push; [assumption | apply chunk_ok_other; discriminate]).
     all: try (now apply Inv_complete); try (now apply Inv_start_stream); try (now apply Inv_poll).
     (* 12 *)
-    destruct (next_id (client_step s)) as [i s1] eqn:E.
+    assert (H0 : Inv (push_log s (Lst [Num 13%Z; Num 1%Z]))).
+    { apply Inv_push; [assumption | apply chunk_ok_other; discriminate]. }
+    destruct (next_id (client_step (push_log s (Lst [Num 13%Z; Num 1%Z])))) as [i s1] eqn:E.
     assert (H1 : Inv s1).
     { change s1 with (snd (i, s1)). rewrite <- E. now apply Inv_next_id, Inv_client_step. }
     destruct (as_Z (nth_s 1 c)) as [|q|q];
@@ -558,8 +560,10 @@ Proof.
     now destruct (negb (islands s1) || hyd s1).
   - do 4 (try destruct p as [p|p|]); try reflexivity.
     all: try apply proj_complete; try apply proj_start_stream; try apply proj_poll.
-    cbn [fold_left c_step]. rewrite <- proj_client_next.
-    destruct (next_id (client_step s)) as [i s1]. cbn [snd].
+    cbn [fold_left c_step].
+    change (proj s) with (proj (push_log s (Lst [Num 13%Z; Num 1%Z]))).
+    rewrite <- proj_client_next.
+    destruct (next_id (client_step (push_log s (Lst [Num 13%Z; Num 1%Z])))) as [i s1]. cbn [snd].
     destruct (as_Z (nth_s 1 c)) as [|q|q];
       try (now destruct (hyd (set_ngates s1 (S (ngates s1))))).
     do 2 (try destruct q as [q|q|]);
@@ -824,3 +828,37 @@ Example ids_align_needs_script_ok :
   let s := session (fun _ => false) false [Lst [Num 1%Z; Num 0%Z]; Lst [Num 0%Z]] in
   map snd (filter fst (handed s)) <> client_ids s.
 Proof. vm_compute. discriminate. Qed.
+
+
+(** * binary encodings: [IntoEncodedString for Vec<u8>] / [FromEncodedStr for [u8]] *)
+(** any byte buffer, sent as unpadded base64, is decoded back to exactly that buffer *)
+Lemma binary_payload_roundtrip l :
+  all_bytes l = true -> bytes_from_encoded_str (bytes_to_encoded_string l) = Some l.
+Proof.
+  intros H. unfold bytes_from_encoded_str, bytes_to_encoded_string.
+  now rewrite (base64_roundtrip false false l H).
+Qed.
+
+Lemma ascii_scalars l : forallb (fun b => b <? 128) l = true -> Forall scalar l.
+Proof.
+  rewrite forallb_forall, Forall_forall. intros H c Hc. specialize (H c Hc).
+  apply N.ltb_lt in H. unfold scalar. lia.
+Qed.
+
+(** ... also through the script: the literal the server writes for the encoded buffer is read
+    by the browser as a string that the client-side decoder turns back into the buffer *)
+Lemma binary_payload_delivered esc l rest :
+  all_bytes l = true ->
+  exists s, js_read (js_string esc (bytes_to_encoded_string l) ++ rest) = Some (s, rest)
+            /\ bytes_from_encoded_str s = Some l.
+Proof.
+  intros H. exists (bytes_to_encoded_string l). split.
+  - apply payload_roundtrip, ascii_scalars. unfold bytes_to_encoded_string.
+    now apply b64_encode_ascii.
+  - now apply binary_payload_roundtrip.
+Qed.
+
+Example binary_payload_nonvacuous :
+  bytes_to_encoded_string [104; 195; 169; 0; 255] = [97; 77; 79; 112; 65; 80; 56]
+  /\ bytes_from_encoded_str [97; 77; 79; 112; 65; 80; 56] = Some [104; 195; 169; 0; 255].
+Proof. split; vm_compute; reflexivity. Qed.
